@@ -20,7 +20,7 @@ BLOCK = 60                      # tags per work unit
 VALUE_SUFFIX = "/Val 7:xY"      # blank, colon, mixed case: has to come back verbatim
 PLACEHOLDER_SUFFIX = "/#"
 EXT_TERMS = ["Ext-X9q", "Sub_zQ"]
-QUICK_TAGS_PER_SCHEMA = 110
+QUICK_TAGS_PER_SCHEMA = 250
 CASES = ("asis", "lower", "upper", "swap")
 
 # (label, argument of load_schema_version, xml files that make up the vocabulary of each member in load order)
@@ -113,23 +113,21 @@ def generate_schema_xml(seed, n_nodes):
             ET.SubElement(ET.SubElement(node, "attribute"), "name").text = a
         return node
 
-    nodes = []      # (element, depth, has_value_child)
+    nodes = []      # (element, may_get_children)
     for _ in range(n_nodes):
-        # prefer deep parents so that long chains (many suffix spellings) occur
-        cands = [x for x in nodes if not x[2]]
+        cands = [x for x in nodes if x[1]]
         if not cands or rng.random() < 0.08:
-            parent_el, depth = sch, 0
+            parent_el = sch
             attrs = ("extensionAllowed",) if rng.random() < 0.5 else ()
         else:
-            cands.sort(key=lambda x: x[1])
-            parent = cands[-1 - int(rng.random() ** 2 * (len(cands) - 1))] if rng.random() < 0.6 else rng.choice(cands)
-            parent_el, depth = parent[0], parent[1]
+            # half of the time extend the newest node, which gives long chains (many suffix spellings)
+            parent_el = (cands[-1] if rng.random() < 0.5 else rng.choice(cands))[0]
             attrs = ()
         el = add_node(parent_el, fresh_name(), attrs)
         takes_value = rng.random() < 0.2
         if takes_value:
             add_node(el, "#", ("takesValue",))
-        nodes.append((el, depth + 1, takes_value and depth + 1 > 11))
+        nodes.append((el, not takes_value or rng.random() < 0.3))
     return ET.tostring(frame, encoding="unicode"), xml_long_names(frame)
 
 
@@ -175,13 +173,13 @@ def check_tag(S, member, long_name, vocab_set, term_set, rec, stats):
     short_name = long_name.split("/")[-1]
     table = member.tags.all_names
     keys = []
-    e = table.get(long_name)
+    e = table.get(long_name.casefold())
     has_value_child = (long_name + "/#") in vocab_set
-    v = table.get(long_name + "/#")
+    v = table.get((long_name + "/#").casefold())
     base_input = {"tag": long_name, "namespace": ns}
-    ok_entry = (e is not None and e.long_tag_name == long_name and e.short_tag_name == short_name
+    ok_entry = (e is not None and e.name == long_name and e.long_tag_name == long_name and e.short_tag_name == short_name
                 and (v is not None) == has_value_child
-                and (v is None or (v.long_tag_name == long_name and v.short_tag_name == short_name
+                and (v is None or (v.name == long_name + "/#" and v.long_tag_name == long_name and v.short_tag_name == short_name
                                    and e.takes_value_child_entry is v))
                 and (has_value_child or e.takes_value_child_entry is None))
     if not ok_entry:
@@ -205,6 +203,7 @@ def check_tag(S, member, long_name, vocab_set, term_set, rec, stats):
         exp_short = ns + short_name + R
         exp_long = ns + long_name + R
         sample_texts = []
+        refs = None
         for j, spelling in enumerate(spellings):
             keys.append("%s|%d|%s" % (long_name, j, kind))
             seen = set()
@@ -222,7 +221,9 @@ def check_tag(S, member, long_name, vocab_set, term_set, rec, stats):
                     obs_forms = [t.short_tag, t.long_tag, t.base_tag, t.short_base_tag]
                     obs_ext = [t.extension, t.org_base_tag, t.org_tag]
                     exists = t.tag_exists_in_schema()
-                    same_hash = hash(t) == hash(HedTag(exp_short, S)) and t == HedTag(exp_long, S)
+                    if refs is None:
+                        refs = (HedTag(exp_short, S), HedTag(exp_long, S))
+                    same_hash = hash(t) == hash(refs[0]) == hash(refs[1]) and t == refs[1] and refs[0] == t
                 except Exception as ex:  # noqa
                     rec("C03.resolve.never_raises", inp, repr(ex), "no exception")
                     continue
@@ -333,15 +334,18 @@ def _work(unit):
             from hed.models.df_util import convert_to_form
             src = [x[0] for x in stats["strings"]]
             for form, idx in (("long_tag", 1), ("short_tag", 2)):
-                ser = pd.Series(list(src))
-                df = pd.DataFrame({"HED": list(src), "other": list(src)})
-                convert_to_form(ser, S, form)
-                convert_to_form(df, S, form, columns=["HED"])
                 want = [x[idx] for x in stats["strings"]]
-                if list(ser) != want or list(df["HED"]) != want or list(df["other"]) != src:
-                    bad = [i for i in range(len(src)) if ser[i] != want[i] or df["HED"][i] != want[i]][:1]
+                ser = pd.Series(list(src))
+                df = pd.DataFrame({"HED": list(src), "HED2": list(reversed(src)), "other": list(src)})
+                one = pd.DataFrame({"only": list(src)})
+                convert_to_form(ser, S, form)
+                convert_to_form(df, S, form, columns=["HED", "HED2"])
+                convert_to_form(one, S, form)
+                got = [list(ser), list(df["HED"]), list(reversed(list(df["HED2"]))), list(one["only"])]
+                if any(g != want for g in got) or list(df["other"]) != src:
+                    bad = [i for i in range(len(src)) if any(g[i] != want[i] for g in got)][:1]
                     rec("C03.string.convert_to_form", {"form": form, "strings": [src[i] for i in bad] or src[:1]},
-                        [ser[i] for i in bad], [want[i] for i in bad])
+                        [[g[i] for g in got] for i in bad] or "untouched column changed", [want[i] for i in bad])
     except Exception as ex:  # noqa
         import traceback
         rec("C03.workload.unit_completed", {"names": names[:3]}, traceback.format_exc()[-600:], "no exception")
@@ -396,7 +400,7 @@ def run(w: Workload):
         try:
             S, members = load(spec)
             for mi, vocab in enumerate(members_vocab):
-                got = set(members[mi].tags.all_names.keys())
+                got = {x.name for x in members[mi].tags.all_names.values()}
                 w.check(got == set(vocab) and len(vocab) == len(set(vocab)) and not members[mi].tags.duplicate_names,
                         "C03.vocabulary.equals_xml_nodes", {"schema": label, "member": mi},
                         sorted(got ^ set(vocab))[:5], "same set of long names, no duplicates")
@@ -437,7 +441,7 @@ def run(w: Workload):
     ]
     w.assumptions += [
         "the bundled XML files are read with xml.etree; a tag's long name is the '/'-join of the <name> texts on its <node> path",
-        "'same node' is observed as identity of HedTag._schema_entry with the entry stored under the long name in "
+        "'same node' is observed as identity of HedTag._schema_entry with the entry stored under the case-folded long name in "
         "<member>.tags.all_names (the '#' child when a value is written)",
     ]
 
